@@ -724,3 +724,136 @@ func PrimsEqualInOrder(a, b RefMesh) string {
 	}
 	return ""
 }
+
+// ---------------------------------------------------------------------------------------------
+// QuickHash: allocation-light digest of everything the public accessors report (C01's oracle).
+// Bit-exact on values; materials by range length, nil-ness and content (name, colours via %v is
+// avoided: name + numeric fields) and by the pointer-sharing pattern between ranges, not by address.
+// ---------------------------------------------------------------------------------------------
+
+type fnv64 uint64
+
+const fnvOff fnv64 = 14695981039346656037
+const fnvPrime = 1099511628211
+
+func (h *fnv64) u64(v uint64) {
+	x := uint64(*h)
+	for i := 0; i < 8; i++ {
+		x ^= v & 0xff
+		x *= fnvPrime
+		v >>= 8
+	}
+	*h = fnv64(x)
+}
+func (h *fnv64) str(s string) {
+	x := uint64(*h)
+	for i := 0; i < len(s); i++ {
+		x ^= uint64(s[i])
+		x *= fnvPrime
+	}
+	x ^= 0xff
+	x *= fnvPrime
+	*h = fnv64(x)
+}
+func (h *fnv64) f(v float64) { h.u64(math.Float64bits(v)) }
+
+func QuickHash(m modeling.Mesh) uint64 {
+	h := fnvOff
+	h.u64(uint64(m.Topology()))
+	it := m.Indices()
+	n := it.Len()
+	h.u64(uint64(n))
+	for i := 0; i < n; i++ {
+		h.u64(uint64(it.At(i)))
+	}
+	mats := m.Materials()
+	h.u64(uint64(len(mats)))
+	for k, mm := range mats {
+		h.u64(uint64(mm.PrimitiveCount))
+		if mm.Material == nil {
+			h.u64(0)
+		} else {
+			// pointer identity *within* the mesh is observable (split-by-material keys on it):
+			// hash the position of the first range using the same pointer
+			first := k
+			for q := 0; q < k; q++ {
+				if mats[q].Material == mm.Material {
+					first = q
+					break
+				}
+			}
+			h.u64(uint64(first + 1))
+			h.str(mm.Material.Name)
+			h.f(mm.Material.SpecularHighlight)
+			h.f(mm.Material.OpticalDensity)
+			h.f(mm.Material.Transparency)
+		}
+	}
+	for _, a := range m.Float1Attributes() {
+		h.str(a)
+		d := m.Float1Attribute(a)
+		h.u64(uint64(d.Len()))
+		for i := 0; i < d.Len(); i++ {
+			h.f(d.At(i))
+		}
+	}
+	h.u64(2)
+	for _, a := range m.Float2Attributes() {
+		h.str(a)
+		d := m.Float2Attribute(a)
+		h.u64(uint64(d.Len()))
+		for i := 0; i < d.Len(); i++ {
+			v := d.At(i)
+			h.f(v.X())
+			h.f(v.Y())
+		}
+	}
+	h.u64(3)
+	for _, a := range m.Float3Attributes() {
+		h.str(a)
+		d := m.Float3Attribute(a)
+		h.u64(uint64(d.Len()))
+		for i := 0; i < d.Len(); i++ {
+			v := d.At(i)
+			h.f(v.X())
+			h.f(v.Y())
+			h.f(v.Z())
+		}
+	}
+	h.u64(4)
+	for _, a := range m.Float4Attributes() {
+		h.str(a)
+		d := m.Float4Attribute(a)
+		h.u64(uint64(d.Len()))
+		for i := 0; i < d.Len(); i++ {
+			v := d.At(i)
+			h.f(v.X())
+			h.f(v.Y())
+			h.f(v.Z())
+			h.f(v.W())
+		}
+	}
+	return uint64(h)
+}
+
+// MaterialSharing digests which material ranges of a and b use the same *Material (the
+// cross-operand part of pointer identity, needed to call two operand pairs "equal").
+func MaterialSharing(a, b modeling.Mesh) uint64 {
+	h := fnvOff
+	all := append(append([]modeling.MeshMaterial{}, a.Materials()...), b.Materials()...)
+	for k, mm := range all {
+		first := k
+		if mm.Material == nil {
+			first = -1
+		} else {
+			for q := 0; q < k; q++ {
+				if all[q].Material == mm.Material {
+					first = q
+					break
+				}
+			}
+		}
+		h.u64(uint64(first + 2))
+	}
+	return uint64(h)
+}
